@@ -594,7 +594,7 @@ def run_include(case, res):
             kw["include_error_handler"] = (lambda context, error: handler == "returns-true")
         lk = L(cache_impl=impl, cache_args=dict(base_args), **kw)
         pre = "/n%s/" % uid
-        lk.put_string(pre + "outer.html", '<%def name="box()" cached="True">[outer box ${tick(\'ob\')}|${x}]</%def>${box()}|<%include file="inner.html"/>|${box()}')
+        lk.put_string(pre + "outer.html", '<%def name="box()" cached="True">[outer box ${tick(\'ob\')}|${x}]</%def><%namespace name="lib" file="inner.html"/>${box()}|<%include file="inner.html"/>|${box()}|${lib.box()}${lib.item()}')
         lk.put_string(pre + "inner.html", '<%def name="box()" cached="True">[inner box ${tick(\'ib\')}|${x}]</%def>'
                                           '<%def name="item()" cached="True">[inner item ${tick(\'ii\')}|${x}]</%def>${box()}${item()}')
         ticks = {}
@@ -604,12 +604,13 @@ def run_include(case, res):
             return ticks[n]
 
         steps = [
-            ("render", "x1", "[outer box 1|x1]|[inner box 1|x1][inner item 1|x1]|[outer box 1|x1]"),
-            ("render", "x2", "[outer box 1|x1]|[inner box 1|x1][inner item 1|x1]|[outer box 1|x1]"),
+            # (the included template's sections are reached twice: through <%include> and through a <%namespace>)
+            ("render", "x1", "[outer box 1|x1]|[inner box 1|x1][inner item 1|x1]|[outer box 1|x1]|[inner box 1|x1][inner item 1|x1]"),
+            ("render", "x2", "[outer box 1|x1]|[inner box 1|x1][inner item 1|x1]|[outer box 1|x1]|[inner box 1|x1][inner item 1|x1]"),
             ("inv-inner-box", None, None),
-            ("render", "x3", "[outer box 1|x1]|[inner box 2|x3][inner item 1|x1]|[outer box 1|x1]"),
+            ("render", "x3", "[outer box 1|x1]|[inner box 2|x3][inner item 1|x1]|[outer box 1|x1]|[inner box 2|x3][inner item 1|x1]"),
             ("inv-outer-box", None, None),
-            ("render", "x4", "[outer box 2|x4]|[inner box 2|x3][inner item 1|x1]|[outer box 2|x4]"),
+            ("render", "x4", "[outer box 2|x4]|[inner box 2|x3][inner item 1|x1]|[outer box 2|x4]|[inner box 2|x3][inner item 1|x1]"),
             ("render-inner", "x5", "[inner box 2|x3][inner item 1|x1]"),
         ]
         for name, x, exp in steps:
